@@ -564,8 +564,15 @@ func (g *genSession) genDatagram(r *rand.Rand, cfg genCfg, first bool) dgram {
 	shortRec := 0     // length of the last data record of at most 4 octets in this datagram (names a regression of K2)
 	noFields := false // the datagram holds a data set for a template without fields (expectation tag F30: any error list)
 	ns := 1 + r.Intn(4)
+	// one datagram in 300 is a large one: its data sets hold hundreds to thousands of records, up to the largest UDP
+	// payload (65 507 octets) — the properties quantify over everything "that fits in a datagram", and 16-bit set
+	// lengths, record counts and offsets only matter up there
+	big := r.Intn(300) == 0
 	// templates announced in this datagram take effect for later sets of the same datagram
 	for i := 0; i < ns; i++ {
+		if len(msg) > 60000 {
+			break
+		}
 		kk := r.Intn(20)
 		if first && i == 0 {
 			kk = 0
@@ -653,9 +660,15 @@ func (g *genSession) genDatagram(r *rand.Rand, cfg genCfg, first bool) dgram {
 			}
 			var body []byte
 			nr := 1 + r.Intn(5)
+			if big {
+				nr = 100 + r.Intn(3000)
+			}
 			okSet := allKnown(p, t) && len(t.all()) > 0
 			for j := 0; j < nr; j++ {
 				rb, vals := p.genRecord(r, t)
+				if big && len(msg)+4+len(body)+len(rb)+12 > 65507 {
+					break // the set length is 16 bits and the datagram at most 65 507 octets
+				}
 				body = append(body, rb...)
 				if len(rb) == 0 {
 					okSet = false // a record of no octets (all field lengths 0) is reported as an error (F2)
